@@ -47,6 +47,9 @@ pub struct DName {
     /// holder = the sheet of the first address (what the reader does for global names)
     pub holder_is_target: bool,
     pub parts: Vec<(u16, Area)>,
+    /// held by the workbook (`Spreadsheet::get_defined_names`) instead of a sheet
+    #[serde(default)]
+    pub workbook_level: bool,
 }
 
 #[derive(Debug, Clone, Serialize, Deserialize)]
@@ -138,8 +141,8 @@ fn name_area(all: bool) -> BoxedStrategy<Area> {
 }
 
 fn dname() -> BoxedStrategy<DName> {
-    (any::<u16>(), prop::bool::weighted(0.8), prop::collection::vec((any::<u16>(), name_area(true)), 1..=2))
-        .prop_map(|(holder, holder_is_target, parts)| DName { holder, holder_is_target, parts })
+    (any::<u16>(), prop::bool::weighted(0.7), prop::collection::vec((any::<u16>(), name_area(true)), 1..=2), prop::bool::weighted(0.2))
+        .prop_map(|(holder, holder_is_target, parts, workbook_level)| DName { holder, holder_is_target, parts, workbook_level })
         .boxed()
 }
 
@@ -199,7 +202,7 @@ fn dirty_cases(_t: Tier) -> BoxedStrategy<Case> {
 fn target_of(r: &RefNode, host: usize, sheets: &[String]) -> Option<usize> {
     match &r.qual {
         None => Some(host),
-        Some(q) if q.is_external() => None,
+        Some(q) if q.is_external() || q.is_3d() => None,
         Some(q) => sheets.iter().position(|s| *s == q.sheet),
     }
 }
@@ -208,10 +211,14 @@ fn bind(e: &Expr, sheets: &[String]) -> Expr {
     let fix = |q: &Qual| -> Qual {
         let mut q = q.clone();
         q.sheet = sheets[pick_idx(q.pick, sheets.len())].clone();
+        if q.sheet2.is_some() {
+            // a 3-D reference spans sheets of this workbook (here: up to the last one)
+            q.sheet2 = Some(sheets[sheets.len() - 1].clone());
+        }
         q
     };
     e.map(&mut |x| match x {
-        Expr::Ref(r) => Expr::Ref(RefNode { qual: r.qual.as_ref().map(fix), area: r.area }),
+        Expr::Ref(r) => Expr::Ref(RefNode { qual: r.qual.as_ref().map(fix), area: r.area, lower: r.lower }),
         Expr::Name { qual, name } => Expr::Name { qual: qual.as_ref().map(fix), name },
         Expr::Err { qual, text } => Expr::Err { qual: qual.as_ref().map(fix), text },
         o => o,
@@ -224,7 +231,7 @@ pub struct Resolved {
     pub sheets: Vec<String>,
     /// (host, at, expr, blanks)
     pub cells: Vec<(usize, (u32, u32), Expr, Vec<u8>)>,
-    /// (holder, parts)
+    /// (holder sheet or WORKBOOK, parts)
     pub names: Vec<(usize, Vec<(usize, Area)>)>,
     pub series: Vec<(usize, Vec<(usize, Area)>)>,
     pub edits: Vec<(usize, Edit)>,
@@ -347,6 +354,9 @@ fn survives(mut pos: (u32, u32), edits: &[Edit]) -> bool {
     true
 }
 
+/// holder index of a workbook-level defined name
+pub const WORKBOOK: usize = usize::MAX;
+
 pub fn resolve(c: &Case) -> Resolved {
     let mut excluded = Vec::new();
     let sheets = c.sheets.clone();
@@ -379,37 +389,16 @@ pub fn resolve(c: &Case) -> Resolved {
     let mut names: Vec<(usize, Vec<(usize, Area)>)> = Vec::new();
     for d in &c.names {
         let mut parts: Vec<(usize, Area)> = d.parts.iter().map(part).collect();
-        let mut holder = if d.holder_is_target { parts[0].0 } else { pick_idx(d.holder, n) };
-        if c.clean {
-            // open findings: names held by another sheet than the one they refer to, second
-            // addresses on another sheet, whole rows/columns
-            if holder != parts[0].0 {
-                excluded.push("defined-name-foreign-holder/not-adjusted".into());
-                holder = parts[0].0;
-            }
-            if punct_multi(&sheets, &parts) {
-                excluded.push("defined-name-multi-on-punct-sheet/not-adjusted".into());
-                parts.truncate(1);
-            }
-            let before = parts.len();
-            let first = parts[0].0;
-            parts.retain(|p| p.0 == first);
-            if parts.len() != before {
-                excluded.push("defined-name-foreign-holder/not-adjusted".into());
-            }
-            for p in parts.iter_mut() {
-                match p.1.clone() {
-                    Area::Rows { r1, a1, r2, a2 } => {
-                        excluded.push("defined-name-whole-rows-cols/not-adjusted".into());
-                        p.1 = Area::Range(CellRef { col: 1, row: r1, abs_col: true, abs_row: a1 }, CellRef { col: 3, row: r2, abs_col: true, abs_row: a2 });
-                    }
-                    Area::Cols { c1, a1, c2, a2 } => {
-                        excluded.push("defined-name-whole-rows-cols/not-adjusted".into());
-                        p.1 = Area::Range(CellRef { col: c1, row: 1, abs_col: a1, abs_row: true }, CellRef { col: c2, row: 4, abs_col: a2, abs_row: true });
-                    }
-                    _ => {}
-                }
-            }
+        let holder = if d.workbook_level {
+            WORKBOOK
+        } else if d.holder_is_target {
+            parts[0].0
+        } else {
+            pick_idx(d.holder, n)
+        };
+        if c.clean && punct_multi(&sheets, &parts) {
+            excluded.push("defined-name-multi-on-punct-sheet/not-adjusted".into());
+            parts.truncate(1);
         }
         names.push((holder, parts));
     }
@@ -454,90 +443,7 @@ pub fn resolve(c: &Case) -> Resolved {
         cell.1 = pos;
         taken.push((host, pos));
     }
-    let mut r = Resolved { sheets, cells, names, series, edits, excluded };
-    if c.clean {
-        steer_refs(&mut r);
-        // open findings (R11): Address/Range based objects mishandle a deleted corner
-        let mut excluded = Vec::new();
-        let edits = r.edits.clone();
-        let on = |t: usize| -> Vec<Edit> { edits.iter().filter(|(s, _)| *s == t).map(|(_, e)| *e).collect() };
-        let all: Vec<Edit> = edits.iter().map(|(_, e)| *e).collect();
-        for (key, list) in [("defined-name/deleted-corner", &mut r.names), ("chart-series/deleted-corner", &mut r.series)] {
-            for (_, parts) in list.iter_mut() {
-                let before = parts.len();
-                parts.retain(|(t, a)| {
-                    let outs = edit_area_history(a, &on(*t));
-                    outs.len() == 1 && outs[0].is_some()
-                });
-                for _ in parts.len()..before {
-                    excluded.push(key.to_string());
-                }
-            }
-            list.retain(|(_, parts)| !parts.is_empty());
-        }
-        // open finding: Address::set_address keeps the doubled apostrophe of a quoted sheet name
-        for (_, parts) in r.series.iter_mut() {
-            let before = parts.len();
-            let sh = r.sheets.clone();
-            parts.retain(|(t, _)| !sh[*t].contains('\''));
-            for _ in parts.len()..before {
-                excluded.push("chart-series@apos-sheet/not-adjusted".to_string());
-            }
-        }
-        r.series.retain(|(_, parts)| !parts.is_empty());
-        // open finding (R5, owned by C07/C10): the edit of another sheet is applied to the
-        // defined names of every sheet
-        for (_, parts) in r.names.iter_mut() {
-            let before = parts.len();
-            parts.retain(|(t, a)| edit_area_history(a, &on(*t)) == edit_area_history(a, &all));
-            for _ in parts.len()..before {
-                excluded.push("defined-name/other-sheet-edit-applied".to_string());
-            }
-        }
-        r.names.retain(|(_, parts)| !parts.is_empty());
-        r.excluded.extend(excluded);
-    }
-    r
-}
-
-/// Clean strata: whole rows/columns that the history would move are replaced by ranges
-/// (open finding: whole rows/columns are never shifted).
-fn steer_refs(r: &mut Resolved) {
-    let sheets = r.sheets.clone();
-    let edits = r.edits.clone();
-    let mut excluded = Vec::new();
-    for (host, _at, e, _b) in r.cells.iter_mut() {
-        let host = *host;
-        *e = e.map(&mut |x| match x {
-            Expr::Ref(rn) => {
-                let whole = matches!(rn.area, Area::Rows { .. } | Area::Cols { .. });
-                if whole {
-                    if let Some(t) = target_of(&rn, host, &sheets) {
-                        let ed: Vec<Edit> = edits.iter().filter(|(s, _)| *s == t).map(|(_, e)| *e).collect();
-                        let outs = edit_area_history(&rn.area, &ed);
-                        if outs != vec![Some(rn.area.clone())] {
-                            let (key, area) = match &rn.area {
-                                Area::Rows { r1, a1, r2, a2 } => (
-                                    "rows/not-shifted",
-                                    Area::Range(CellRef { col: 1, row: *r1, abs_col: true, abs_row: *a1 }, CellRef { col: 3, row: *r2, abs_col: true, abs_row: *a2 }),
-                                ),
-                                Area::Cols { c1, a1, c2, a2 } => (
-                                    "cols/not-shifted",
-                                    Area::Range(CellRef { col: *c1, row: 1, abs_col: *a1, abs_row: true }, CellRef { col: *c2, row: 4, abs_col: *a2, abs_row: true }),
-                                ),
-                                _ => unreachable!(),
-                            };
-                            excluded.push(key.to_string());
-                            return Expr::Ref(RefNode { qual: rn.qual, area });
-                        }
-                    }
-                }
-                Expr::Ref(rn)
-            }
-            o => o,
-        });
-    }
-    r.excluded.extend(excluded);
+    Resolved { sheets, cells, names, series, edits, excluded }
 }
 
 // ---------------------------------------------------------------------------------------
@@ -557,6 +463,12 @@ fn address_text(sheets: &[String], parts: &[(usize, Area)]) -> Vec<String> {
     parts.iter().map(|(s, a)| format!("{}{}", Qual::plain(&sheets[*s]).text(), a.text())).collect()
 }
 
+fn read_name(book: &umya_spreadsheet::Spreadsheet, holder: usize, i: usize) -> Option<String> {
+    let nm = format!("nm_{}", i);
+    let list = if holder == WORKBOOK { book.get_defined_names() } else { book.get_sheet(&holder).unwrap().get_defined_names() };
+    list.iter().find(|d| d.get_name() == nm).map(|d| d.get_address())
+}
+
 pub fn run_workbook(r: &Resolved, texts: &[String]) -> Result<Observed, PanicInfo> {
     guard(|| {
         let mut book = umya_spreadsheet::new_file_empty_worksheet();
@@ -571,8 +483,17 @@ pub fn run_workbook(r: &Resolved, texts: &[String]) -> Result<Observed, PanicInf
         }
         for (i, (holder, parts)) in r.names.iter().enumerate() {
             let addr = address_text(&r.sheets, parts).join(",");
-            let ws = book.get_sheet_mut(holder).unwrap();
-            ws.add_defined_name(format!("nm_{}", i), addr).unwrap();
+            if *holder == WORKBOOK {
+                // the public API names a DefinedName only through a worksheet: build it there,
+                // then hand it to the workbook
+                let ws = book.get_sheet_mut(&0).unwrap();
+                ws.add_defined_name(format!("nm_{}", i), addr).unwrap();
+                let dn = ws.get_defined_names_mut().pop().unwrap();
+                book.add_defined_names(dn);
+            } else {
+                let ws = book.get_sheet_mut(holder).unwrap();
+                ws.add_defined_name(format!("nm_{}", i), addr).unwrap();
+            }
         }
         for (holder, parts) in r.series.iter() {
             let addrs = address_text(&r.sheets, parts);
@@ -586,9 +507,7 @@ pub fn run_workbook(r: &Resolved, texts: &[String]) -> Result<Observed, PanicInf
         }
         let mut obs = Observed::default();
         for (i, (holder, _)) in r.names.iter().enumerate() {
-            let nm = format!("nm_{}", i);
-            let ws = book.get_sheet(holder).unwrap();
-            obs.names0.push(ws.get_defined_names().iter().find(|d| d.get_name() == nm).map(|d| d.get_address()));
+            obs.names0.push(read_name(&book, *holder, i));
         }
         for (holder, _) in r.series.iter() {
             let ws = book.get_sheet_mut(holder).unwrap();
@@ -616,9 +535,7 @@ pub fn run_workbook(r: &Resolved, texts: &[String]) -> Result<Observed, PanicInf
             obs.cells.push(if found.len() == 1 { Some(found[0].clone()) } else { None });
         }
         for (i, (holder, _)) in r.names.iter().enumerate() {
-            let nm = format!("nm_{}", i);
-            let ws = book.get_sheet(holder).unwrap();
-            obs.names.push(ws.get_defined_names().iter().find(|d| d.get_name() == nm).map(|d| d.get_address()));
+            obs.names.push(read_name(&book, *holder, i));
         }
         for (holder, _) in r.series.iter() {
             let ws = book.get_sheet_mut(holder).unwrap();
@@ -669,14 +586,14 @@ fn attempt_cell(r: &Resolved, host: usize, at: (u32, u32), e: &Expr, blanks: &[u
 
 /// single reference for the classifier; `strip`: the equivalent unqualified reference, i.e.
 /// hosted on the sheet the qualifier designates (not possible for external references)
-fn ref_runner(r: &Resolved, host: usize, at: (u32, u32), rn: &RefNode, strip: bool, a: &Area) -> Outcome {
+fn ref_runner(r: &Resolved, host: usize, at: (u32, u32), rn: &RefNode, strip: bool, a: &Area, lower: bool) -> Outcome {
     if strip {
         match target_of(rn, host, &r.sheets) {
-            Some(t) if rn.qual.is_some() => attempt_cell(r, t, at, &Expr::Ref(RefNode { qual: None, area: a.clone() }), &[], 0, 0),
+            Some(t) if rn.qual.is_some() => attempt_cell(r, t, at, &Expr::Ref(RefNode { qual: None, area: a.clone(), lower }), &[], 0, 0),
             _ => Outcome::Pass,
         }
     } else {
-        attempt_cell(r, host, at, &Expr::Ref(RefNode { qual: rn.qual.clone(), area: a.clone() }), &[], 0, 0)
+        attempt_cell(r, host, at, &Expr::Ref(RefNode { qual: rn.qual.clone(), area: a.clone(), lower }), &[], 0, 0)
     }
 }
 
@@ -700,6 +617,10 @@ pub fn parse_address_list(s: &str, split: bool) -> Result<Vec<(String, Option<Ar
     }
     let mut out = Vec::new();
     for p in parts {
+        if p == "#REF!" {
+            out.push((String::new(), None));
+            continue;
+        }
         let (q, rest) = split_qualifier(&p);
         let sheet = if q.is_empty() {
             String::new()
@@ -809,33 +730,19 @@ fn punct_multi(sheets: &[String], parts: &[(usize, Area)]) -> bool {
     false
 }
 
-/// Root-cause class of a failing address part (None = no known structural cause: general).
-/// `holder`: Some for defined names.  Order matters: an opaque or foreign-held address is
-/// never adjusted at all, so R5 / deletion handling cannot be what went wrong for it.
+/// Structural class of a failing address part (None = general).  `holder`: Some for defined
+/// names.
 fn address_cause(r: &Resolved, kind: &str, holder: Option<usize>, parts: &[(usize, Area)], i: usize) -> Option<String> {
     let (t, a) = &parts[i.min(parts.len() - 1)];
-    if holder.is_some() {
-        if parts.iter().any(|(_, a)| matches!(a, Area::Rows { .. } | Area::Cols { .. })) {
-            return Some(format!("{}-whole-rows-cols", kind));
-        }
+    if let Some(h) = holder {
         if punct_multi(&r.sheets, parts) {
             return Some(format!("{}-multi-on-punct-sheet", kind));
         }
-        if Some(*t) != holder {
-            return Some(format!("{}-foreign-holder", kind));
-        }
-    } else if r.sheets[*t].contains('\'') {
-        return Some(format!("{}@apos-sheet", kind));
-    }
-    let own = edit_area_history(a, &r.edits_on(*t));
-    if holder.is_some() {
-        // R5: every sheet's defined names see every edit
-        let all: Vec<Edit> = r.edits.iter().map(|(_, e)| *e).collect();
-        if edit_area_history(a, &all) != own {
-            return Some(format!("{}:other-sheet-edit-applied", kind));
+        if h == WORKBOOK {
+            return Some(format!("{}-workbook-level", kind));
         }
     }
-    if own.contains(&None) {
+    if edit_area_history(a, &r.edits_on(*t)).contains(&None) {
         return Some(format!("{}:deleted-corner", kind));
     }
     None
@@ -1025,8 +932,13 @@ fn label(c: &Case, r: &Resolved, obs: &mut Obs) {
             } else {
                 classes.insert("name:unchanged".into());
             }
-            if t != holder {
+            if *holder == WORKBOOK {
+                classes.insert("name:workbook-level".into());
+            } else if t != holder {
                 classes.insert("name:foreign-holder".into());
+            }
+            if matches!(a, Area::Rows { .. } | Area::Cols { .. }) {
+                classes.insert("name:whole-rows-cols".into());
             }
         }
     }
@@ -1079,7 +991,7 @@ fn check(c: &Case, obs: &mut Obs) -> Verdict {
             let expected = cell_expected(&r, *host, e);
             if let Outcome::Fail { mode, tok_class, detail } = judge_output(&texts[i], &inputs[i], &expected, Ok(Ok(out.clone()))) {
                 let run = |x: &Expr, bl: &[u8], l: u8, t: u8| attempt_cell(&r, *host, *at, x, bl, l, t);
-                let run_ref = |rn: &RefNode, strip: bool, a: &Area| ref_runner(&r, *host, *at, rn, strip, a);
+                let run_ref = |rn: &RefNode, strip: bool, a: &Area, lower: bool| ref_runner(&r, *host, *at, rn, strip, a, lower);
                 // classify on the isolated cell when it fails alone as well, else by token class
                 let alone = attempt_cell(&r, *host, *at, e, b, 0, 0);
                 let (key, detail) = match alone {
@@ -1122,7 +1034,7 @@ fn check(c: &Case, obs: &mut Obs) -> Verdict {
         for (host, at, e, b) in r.cells.iter() {
             if let Outcome::Fail { mode, tok_class, detail } = attempt_cell(&r, *host, *at, e, b, 0, 0) {
                 let run = |x: &Expr, bl: &[u8], l: u8, t: u8| attempt_cell(&r, *host, *at, x, bl, l, t);
-                let run_ref = |rn: &RefNode, strip: bool, a: &Area| ref_runner(&r, *host, *at, rn, strip, a);
+                let run_ref = |rn: &RefNode, strip: bool, a: &Area, lower: bool| ref_runner(&r, *host, *at, rn, strip, a, lower);
                 let (key, detail) = classify(e, b, 0, 0, (mode, tok_class, detail), &run, &run_ref);
                 return Verdict::fail(key, detail);
             }
